@@ -55,6 +55,8 @@ pub struct World {
     pub server: Option<HttpServer>,
     /// a placeholder on descriptor 0 (scenario `descriptor-zero`): released right after the first client connected
     pub park0: Option<std::fs::File>,
+    /// always keep the lowest free numbers away from the client's socket at connect (aimed descriptor-reuse scenarios)
+    pub force_reserve: bool,
     pub path: String,
     pub epfd: RawFd,
     pub listener_fd: RawFd,
@@ -200,6 +202,7 @@ impl World {
         let mut w = World {
             server: Some(server),
             park0,
+            force_reserve: false,
             path,
             epfd,
             listener_fd,
@@ -268,7 +271,7 @@ impl World {
         // typically the number a connection (or the server's copy of the kill switch) released a moment ago — is
         // still free when the server accepts: descriptor numbers are then reused on the SERVER side, which is what the
         // identity clauses (C07, C18) are about.
-        let reserve = (self.clients.len() + self.polls) % 2 == 0;
+        let reserve = self.force_reserve || (self.clients.len() + self.polls) % 2 == 0;
         let placeholders: Vec<std::fs::File> = if reserve { (0..2).filter_map(|_| std::fs::File::open("/dev/null").ok()).collect() } else { vec![] };
         let s = UnixStream::connect(&self.path).expect("connect");
         drop(placeholders);
